@@ -90,7 +90,7 @@ Definition loc_free (c : cfg) (l : list N) : bool :=
 Definition range_only (k : case) : bool :=
   let c := k_cfg k in
   loc_free c (fns k) && forallb (fun f => trig_empty (trig_of c f)) (fns k) && (threshold c =? 0)%N && negb (caller_filter c)
-  && plt_free c (fns k) && forallb (fun n => Z.of_nat (height n) <=? gdepth c) (k_forest k).
+  && negb (fmode_in c) && plt_free c (fns k) && forallb (fun n => Z.of_nat (height n) <=? gdepth c) (k_forest k).
 Definition in_window (c : cfg) (t : N) : bool :=
   ((range_start c =? 0) || (range_start c <=? t))%N && ((range_stop c =? 0) || (t <=? range_stop c))%N.
 Definition ok_range (k : case) : bool :=
@@ -286,3 +286,46 @@ Definition ok_size_agree (k : zcase) : bool := ok_agree_gen false (z_case k).
 (* the size filter hides something in this case *)
 Definition z_hides (k : zcase) : bool :=
   negb (Nat.eqb (length (z_select k)) (length (select (k_cfg (z_case k)) (k_forest (z_case k))))).
+
+(* ---------------------------------------------------------------- -r with several tasks; --tid; elapsed ends *)
+(* -r alone, several tasks: every task shows exactly its records inside the window *)
+Definition mrange_only (k : mcase) : bool :=
+  let c := mk_cfg k in
+  loc_free c (mfns k) && forallb (fun f => trig_empty (trig_of c f)) (mfns k) && (threshold c =? 0)%N
+  && negb (caller_filter c) && negb (fmode_in c) && plt_free c (mfns k)
+  && forallb (forallb (fun n => Z.of_nat (height n) <=? gdepth c)) (mk_forests k).
+Definition mok_range (k : mcase) : bool :=
+  let c := mk_cfg k in
+  negb (mrange_only k)
+  || forallb (fun t =>
+       let want := filter (fun r => in_window c (r_time r)) (nth t (mrecs k) []) in
+       let want4 := map (fun r => (match r_type r with ENTRY => false | EXIT => true end, r_fn r, r_depth r, r_time r)) want in
+       let names := map (fun a => let '(x, f, _, _) := a in (x, f)) want4 in
+       list_eqb rt_eqb want4 (of_task t (mo_raw k))
+       && list_eqb n_eqb names (map nd_n (of_task t (mo_replay k)))
+       && list_eqb n_eqb names (map nd_n (of_task t (mo_script k)))
+       && list_eqb n_eqb (names ++ map (fun f => (true, f)) (open_stack names [])) (map nt_n (of_task t (mo_chrome k))))
+     (tasks_of k).
+
+(* --tid LIST -r START~STOP where an end may be an elapsed time: the outputs are those of the selected tasks alone
+   under the absolute window counted from the origin of the WHOLE recording (Model.setup_first over all tasks) *)
+Record tcase := {
+  t_case : mcase;              (* the options without -r / --tid, the forests of ALL tasks, the outputs *)
+  t_range : erange;
+  t_sel : list nat             (* --tid: indices of the selected tasks *)
+}.
+Definition t_selb (k : tcase) (i : nat) : bool := existsb (Nat.eqb i) (t_sel k).
+Fixpoint fsel_from {A} (sel : nat -> bool) (i : nat) (l : list (list A)) : list (list A) :=
+  match l with [] => [] | x :: r => (if sel i then x else []) :: fsel_from sel (S i) r end.
+Definition t_resolved (k : tcase) : mcase :=
+  let m := t_case k in
+  {| mk_cfg := resolve_range (mk_cfg m) (t_range k) (mrecs m);
+     mk_forests := fsel_from (t_selb k) 0 (mk_forests m); mk_nfun := mk_nfun m;
+     mo_replay := mo_replay m; mo_nomerge := mo_nomerge m; mo_script := mo_script m; mo_raw := mo_raw m;
+     mo_chrome := mo_chrome m; mo_report := mo_report m; mo_graph := mo_graph m |}.
+(* the task that owns the oldest record is left out, and an end of the range is an elapsed time *)
+Definition t_origin_excluded (k : tcase) : bool :=
+  let ss := mrecs (t_case k) in
+  let first := setup_first ss in
+  (e_start_el (t_range k) && negb (e_start (t_range k) =? 0)%N || e_stop_el (t_range k) && negb (e_stop (t_range k) =? 0)%N)
+  && negb (existsb (fun t => match nth t ss [] with r :: _ => (r_time r =? first)%N | [] => false end) (t_sel k)).
